@@ -652,3 +652,28 @@ def cross_iteration_flows(func: ast.AST) -> List[Tuple[str, str]]:
                 out.append((cname, f"`{cname}` (created at line {line}) is filled from this iteration's data (line {stores[0].lineno}) and read at line {r0.lineno} "
                                    f"(`{' '.join(ast.unparse(parent.get(id(r0), r0)).split())[:70]}`) inside `for {ast.unparse(loop.target)} in {ast.unparse(loop.iter)[:40]}`"))
     return out
+
+
+def rowwise_state(outer: ast.AST, fn: ast.AST) -> List[str]:
+    """stores made by a row-wise function `fn` (passed to DataFrame.apply(axis=1) / Series.apply / map) into containers that live OUTSIDE the call:
+    names that are neither parameters nor plain local assignments of fn.  Such a function's result for one row depends on the rows seen before it."""
+    if isinstance(fn, ast.Lambda):
+        return []
+    params = set(param_names(fn)) if isinstance(fn, ast.FunctionDef) else set()
+    locals_ = {t.id for t, v, s_ in assignments(fn, nested=False) if isinstance(t, ast.Name)} | params
+    for n in walk_no_nested(fn):
+        if isinstance(n, (ast.For, ast.comprehension)):
+            for x in ast.walk(n.target):
+                if isinstance(x, ast.Name):
+                    locals_.add(x.id)
+    out = []
+    for n in walk_no_nested(fn):
+        if isinstance(n, (ast.Assign, ast.AugAssign)):
+            for t in (n.targets if isinstance(n, ast.Assign) else [n.target]):
+                if isinstance(t, ast.Subscript) and isinstance(t.value, ast.Name) and t.value.id not in locals_:
+                    out.append(" ".join(ast.unparse(n).split())[:90])
+        if isinstance(n, ast.Call) and isinstance(n.func, ast.Attribute) and n.func.attr in _MUT_METHODS and isinstance(n.func.value, ast.Name) and n.func.value.id not in locals_:
+            out.append(" ".join(ast.unparse(n).split())[:90])
+        if isinstance(n, (ast.Nonlocal, ast.Global)):
+            out.append(" ".join(ast.unparse(n).split())[:90])
+    return out
